@@ -3,6 +3,7 @@ use crate::api::Rule;
 use crate::http::Request;
 use crate::router::Trace;
 use serde::{Deserialize, Serialize};
+use std::collections::HashSet;
 
 #[derive(Serialize, Deserialize, Debug, Clone)]
 pub struct TraceAction {
@@ -15,6 +16,11 @@ impl TraceAction {
         let mut traces_action = Vec::new();
         let mut current_action = Action::default();
         let mut routes = Trace::<Rule>::get_routes_from_traces(traces);
+
+        // A route stored in several buckets (several matching ip ranges) is traced once per
+        // bucket: apply it once, like the live pipeline does
+        let mut seen = HashSet::new();
+        routes.retain(|route| seen.insert(route.id().to_string()));
 
         // Reverse order of sort
         routes.sort_by_key(|a| a.priority());
